@@ -15,13 +15,16 @@ import TexcraftModel.Model.C13
   `N` = the word has a non-letter). Used to tie the raw positions to property C13 when the
   pattern set is small enough to be given to the driver.
 
-* `rm <lhm> <rhm> <P> <inp list> <out list> <n> {<k> raw…}` — the reconstitution model: `P` = the
-  font's lig/kern program in C05's encoding (`rb lb nE (c e)* nK k* nI (next right kind x y)*`, kerns
-  already scaled). Reply `<v> | <runs> | <model list>`: `v` = `1` the list `hyphenateM` computes
+* `prog <P>` → `ok`: sets the lig/kern program for the following `rm` requests (the only state of
+  the driver); `P` = the font's program in C05's encoding (`rb lb nE (c e)* nK k* nI (next right
+  kind x y)*`, kerns already scaled).
+* `rm <lhm> <rhm> <inp list> <out list> <n> {<k> raw…}` — the reconstitution model. Reply `<v> | <runs> | <model list>`: `v` = `1` the list `hyphenateM` computes
   with the engine `engineOfProgram P` equals the REAL output node for node, `0` it differs, `P`
   the model panics/hangs; `runs` = for every word that is rebuilt `dlb rbo n item…;` — the main
   run of the model engine with `is_separation_point()` after every item (item = `0 c s` |
-  `1 k s` | `2 c lb rb n o… s`), which the harness compares with the real `RunIter`.
+  `1 k s` | `2 c lb rb n o… s`), which the harness compares with the real `RunIter`; `ub=1` iff
+  `unbrokenM` (every rebuilt word replaced by its main run) is the input itself — then
+  `hyphenateM_invariants` gives P1 against the input.
 
 List encoding: `<n> item…`; item = `0 c font` | `1 c font lb rb <k> orig…` | `2 kind w` |
 `3 kind <k> payload…` | `4 rc <npre> delem… <npost> delem…`; delem = `0 c font` |
@@ -228,10 +231,26 @@ def rebuiltWords (inp : List Item) (lhm rhm : Int) (liang : List Nat → List Na
     let pb := popBoundaryLig w.font skipped (startsWithLB rest.head?)
     some (w.letters, !pb.2, rboOf w.font (rest.drop w.nodes).head?))
 
-def handleRm (lhm rhm : Int) (rest : Cur) : String :=
-  match decProg rest with
-  | none => "bad-request program"
-  | some (p, rest) =>
+def tidx (l : Option Nat) (r : Nat) : Nat := (match l with | none => 256 | some x => x) * 256 + r
+
+/-- `C05.table p`, tabulated once per program: the candidate pairs are evaluated with the fuel
+`C05.bound p` (`tableB (bound p) p = table p` by `rfl`); every other pair has no rule, hence no
+entry. (A separate function returning the array: a `let` inside a function that returns a
+closure would be re-evaluated at every lookup.) -/
+def mkArr (b : Nat) (p : C05.Program) : Array (Option C05.Repl) :=
+  if b < 2000 then #[] else   -- small program: direct evaluation is cheaper than a 65 792-entry table
+  (C05.candPairs p).foldl
+    (fun (a : Array (Option C05.Repl)) pr =>
+      let i := tidx pr.1 pr.2
+      if i < a.size then (if (a[i]?).join.isSome then a else a.set! i (tableB b p pr.1 pr.2)) else a)
+    (Array.replicate (257 * 256) none)
+
+/-- Lookup: characters ≥ 256 fall back to `tableB`. -/
+def tblOf (b : Nat) (p : C05.Program) (arr : Array (Option C05.Repl)) (l : Option Nat) (r : Nat) : Option C05.Repl :=
+  if arr.size != 0 && r < 256 && (match l with | none => true | some x => decide (x < 256)) then (arr[tidx l r]?).join
+  else tableB b p l r
+
+def handleRm (eng : Engine) (lhm rhm : Int) (rest : Cur) : String :=
     match decItems rest with
     | none => "bad-request inp"
     | some (inp, rest) =>
@@ -243,7 +262,6 @@ def handleRm (lhm rhm : Int) (rest : Cur) : String :=
           if fw.length ≠ raws.length then "bad-request words" else
           let table := (fw.map (·.letters)).zip raws
           let liang := fun (s : List Nat) => ((table.find? (fun e => e.1 == s)).map (·.2)).getD []
-          let eng := engineOf (tableB (C05.bound p) p) p.rb
           let model := hyphenateM eng lhm rhm liang inp
           let v := match model with
             | none => "P"
@@ -255,7 +273,10 @@ def handleRm (lhm rhm : Int) (rest : Cur) : String :=
           let shown := match model with
             | none => "panic-or-hang"
             | some m => if m = out then "=" else " ".intercalate (m.map showItem)
-          s!"{v} | {";".intercalate runs} | {shown}"
+          let ub := match unbrokenM eng lhm rhm liang inp with
+            | some u => if u = inp then "1" else "0"
+            | none => "P"
+          s!"{v} | {";".intercalate runs} | {shown} | ub={ub}"
         | _ => "bad-request raws"
       | _ => "bad-request out"
 
@@ -272,10 +293,6 @@ def handle (line : String) : String :=
     match C13.lowerWord C13.asciiLc w.toList with
     | none => "N"
     | some lw => dots (C13.specIndices (items pats) (items excs) lw)
-  | "rm" :: ws =>
-    match ints? ws with
-    | some (lhm :: rhm :: rest) => handleRm lhm rhm rest
-    | _ => "bad-request"
   | "chk" :: ws =>
     match ints? ws with
     | some (lhm :: rhm :: rest) =>
@@ -308,7 +325,7 @@ def handle (line : String) : String :=
             let pre := sortNats (expectedPositions inp fwPre prePos)
             let extra := impl.filter (fun p => !spec.contains p)
             let missing := spec.filter (fun p => !impl.contains p)
-            let covered := fun (p : Nat) => dps.any (fun (q, a, b) => decide (q ≠ p) && decide (a < p) && decide (p < b))
+            let covered := coveredBy dps
             let missC := missing.filter covered
             let missU := missing.filter (fun p => !covered p)
             s!"al={b2s al.isSome} p1={b2s p1} p2={b2s p2} nd={(marks.filter id).length} mm={firstMismatch inp out} impl={dots impl} model={dots model} spec={dots spec} pre={if preOk then dots pre else "?"} extra={dots extra} missU={dots missU} missC={dots missC} mw={b2s (sw = fw)} nw={fw.length} nwpre={fwPre.length}"
@@ -320,4 +337,38 @@ def handle (line : String) : String :=
 
 end DrvC14
 
-def main : IO Unit := Proto.main DrvC14.handle
+/-- The driver keeps one piece of state: the engine of the program last sent with `prog` (the
+table of a font like cmr10 is tabulated once, not once per case). -/
+partial def DrvC14.loop (eng : Option C14.Engine) : IO Unit := do
+  let stdin ← IO.getStdin
+  let stdout ← IO.getStdout
+  let line ← stdin.getLine
+  if line.isEmpty then return ()
+  match Proto.words line with
+  | "prog" :: ws =>
+    match Proto.ints? ws >>= DrvC14.decProg with
+    | some (p, []) =>
+      let b := C05.bound p
+      let arr ← pure (DrvC14.mkArr b p)
+      let e := C14.engineOf (DrvC14.tblOf b p arr) p.rb
+      stdout.putStrLn s!"ok {arr.size}"
+      stdout.flush
+      DrvC14.loop (some e)
+    | _ =>
+      stdout.putStrLn "bad-request program"
+      stdout.flush
+      DrvC14.loop eng
+  | "rm" :: ws =>
+    let reply := match eng, Proto.ints? ws with
+      | some e, some (lhm :: rhm :: rest) => DrvC14.handleRm e lhm rhm rest
+      | none, _ => "bad-request no program"
+      | _, _ => "bad-request"
+    stdout.putStrLn reply
+    stdout.flush
+    DrvC14.loop eng
+  | _ =>
+    stdout.putStrLn (DrvC14.handle line)
+    stdout.flush
+    DrvC14.loop eng
+
+def main : IO Unit := DrvC14.loop none
